@@ -1,92 +1,23 @@
 import FitModel.ProfileSpec
-import FitModel.Generated.Xlsx
-import FitModel.Generated.XlsxTypes
-import FitModel.Generated.ProfileTables
-import FitModel.Generated.ProfileTypes
-import FitModel.Generated.ProfileStrs
-import FitModel.Generated.Untyped
-import FitModel.Typed
-import FitModel.Generated.Mesgdef
-/-! Definitions used in the statements of C17 (`FitProps/C17.lean`). The kernel evaluations of the statements live in
-the `C17*Lemmas` modules, one per group of tables, so that lake re-checks them in parallel. -/
+/-! Definitions used in the statements of C17 (`FitProps/C17.lean`) that depend on NO regenerated table. The statements are
+sharded: each `C17Defs<Group>` / `C17<Group>Lemmas` pair imports only the regenerated tables of its group, so that a changed
+table makes lake re-check only the shards that read it (in parallel):
+
+| shard | regenerated tables it reads |
+|---|---|
+| `C17DefsMesg`, `C17MesgLemmas` | `Xlsx` (messages), `ProfileTables` (factory dump), `Mesgdef` |
+| `C17DefsTypes`, `C17TypesLemmas` | `XlsxTypes`, `ProfileTypes`, `ProfileStrs` (profile_gen.go rows) |
+| `C17StrLemmas` | `ProfileStrs`, `ProfileTypes`, `ProfileTables` (base-type sizes) |
+| `C17DefsUntyped`, `C17UntypedLemmas`, `C17UntypedNodupLemmas`, `C17MesgnumLemmas` | `Untyped`, `Xlsx` / `XlsxTypes` |
+-/
 namespace Fit.C17
-open Fit.ProfileSpec Fit.Gen
+open Fit.ProfileSpec
 
-/-- (spreadsheet spelling, generated spelling): `cadence_zone_high_bondary → …_boundary` (field 8 of message
-`zones_target`… see the KF entry), `connect_iq_app_managment → …_management` (constant of
-`connectivity_capabilities`), `degrees_farenheit → degrees_fahrenheit` (constant of `exd_data_units`) -/
-def f14 : List (Nat × Nat) := [
-  (0x1636164656e63655f7a6f6e655f686967685f626f6e64617279, 0x1636164656e63655f7a6f6e655f686967685f626f756e64617279),
-  (0x1636f6e6e6563745f69715f6170705f6d616e61676d656e74, 0x1636f6e6e6563745f69715f6170705f6d616e6167656d656e74),
-  (0x1646567726565735f666172656e68656974, 0x1646567726565735f66616872656e68656974)]
-
-/-- the packed numbers above are these texts -/
+/-- the packed numbers of `Fit.ProfileSpec.f14` (the complete list of KF-C17-1) are these texts -/
 example : f14.map (fun p => (unpack p.1, unpack p.2)) =
     [("cadence_zone_high_bondary".toUTF8.toList.map UInt8.toNat, "cadence_zone_high_boundary".toUTF8.toList.map UInt8.toNat),
      ("connect_iq_app_managment".toUTF8.toList.map UInt8.toNat, "connect_iq_app_management".toUTF8.toList.map UInt8.toNat),
      ("degrees_farenheit".toUTF8.toList.map UInt8.toNat, "degrees_fahrenheit".toUTF8.toList.map UInt8.toNat)] := by
   decide +kernel
-
-/-- the full statement: the factory's tables are the spreadsheet's rows -/
-def C17_factory_eq_xlsx_full : Prop := Prof.mesgs = Xlsx.mesgs
-
-/-- the full statement for the types: the compiled constants are the spreadsheet's (deprecated duplicates aside) -/
-def C17_types_eq_xlsx_full : Prop := Prof.types = Xlsx.types.map TypeRow.dedupe
-
-def btSize (t : Nat) : Nat := Prof.btSizes.getD t 0
-
-/-- what the spreadsheet prescribes for package fieldnum: one constant per field of every message, named message ++ field -/
-def expectedFieldnum (ms : List Mesg) : List (Nat × Nat) :=
-  (ms.flatMap fun m => m.fields.map fun f => (joinIdent m.name f.name, f.num)) ++ [(0x1496e76616c6964 /- "Invalid" -/, 255)]
-
-/-- … and for package mesgnum: the constants of the type `mesg_num` -/
-def expectedMesgnum (ts : List TypeRow) : List (Nat × Nat) :=
-  match ts.find? (·.name == 0x16d6573675f6e756d /- "mesg_num" -/) with
-  | some t => (t.consts.map fun c => (c.name, c.value)) ++ [(0x1496e76616c6964 /- "Invalid" -/, 65535)]
-  | none => []
-
-def expectedBaseNames (ts : List TypeRow) : List (Nat × Nat) :=
-  match ts.find? (·.name == 0x16669745f626173655f74797065 /- "fit_base_type" -/) with
-  | some t => t.consts.map fun c => (c.name, c.value)
-  | none => []
-
-/-! ### the typed messages (profile/mesgdef) against the spreadsheet -/
-
-/-- the field numbers of a message that a component (of a field or of a sub-field) expands into -/
-def componentTargets (m : Mesg) : List Nat :=
-  m.fields.flatMap fun f => f.comps.map (·.num) ++ f.subs.flatMap fun s => s.comps.map (·.num)
-
-def isTimeType (p : Nat) : Bool :=
-  p == 0x1646174655f74696d65 /- "date_time" -/ || p == 0x16c6f63616c5f646174655f74696d65 /- "local_date_time" -/
-
-def isBoolType (p : Nat) : Bool := p == 0x1626f6f6c /- "bool" -/
-
-/-- One slot of a typed struct (as probed from the compiled code) is what the spreadsheet row of that field prescribes:
-same base type; eligible for the expanded bitmap iff some component of the message expands into it; a `time.Time` iff the
-type is date_time / local_date_time; a `typedef.Bool` iff the type is bool; a string iff the base type is string; a slice
-iff the Array cell is `[N]`; an array of n iff it is `[n]`; a scalar otherwise. -/
-def slotMatches (m : Mesg) (fl : FixedLens) (s : Fit.Typed.Slot) : Bool :=
-  match m.fields.find? (·.num == s.num) with
-  | none => false
-  | some f =>
-    s.baseType == f.baseType && (s.canExpand == (componentTargets m).contains s.num) &&
-    match s.kind with
-    | .time => isTimeType f.ptype && !f.array
-    | .bool => isBoolType f.ptype && !f.array
-    | .str => f.baseType == 7 && !f.array
-    | .scalar => !f.array && f.baseType != 7 && !isBoolType f.ptype && !isTimeType f.ptype
-    | .slice => f.array && fixedLenOf fl m.num f.num == 0
-    | .fixed n => f.array && fixedLenOf fl m.num f.num == n && n != 0
-
-/-- a typed struct against its message: same name (up to case / underscores), one slot per field and vice versa, each
-slot as prescribed, and ToMesg emits the fields in the order of the sheet rows -/
-def tableMatchesXlsx (ms : List Mesg) (fl : FixedLens) (order : List (Nat × List Nat)) (T : Fit.Typed.MesgTable) : Bool :=
-  match ms.find? (·.num == T.num) with
-  | none => false
-  | some m =>
-    normIdent T.name == normIdent m.name && T.slots.all (slotMatches m fl) &&
-    (match order.find? (·.1 == T.num) with
-     | some o => T.slots.map (·.num) == o.2
-     | none => false)
 
 end Fit.C17
